@@ -38,18 +38,20 @@ Proof. intros cfg inbox a. apply from_K. apply lt_post_inbox. intros _. reflexiv
 Theorem C09_post_inbox_partial : forall cfg r tr o, runs (post_inbox_http cfg r) tr o -> disciplined false tr.
 Proof. intros cfg r. apply from_K. apply locks_post_inbox_counting. Qed.
 
-(* "never retaken" is false of InboxForwarding: the same owned collection named twice in to/cc is locked
-   again while its deferred lock is still held (finding F2b; pinned by TestInboxForwarding) *)
+(* "never retaken" is false of InboxForwarding: an owned collection that is addressed AND is the activity's inReplyTo /
+   object / target / tag is locked again by the value search while its deferred lock is still held (finding F2b; the
+   deferred unlocks are pinned by TestInboxForwarding).  Naming one collection twice, or two collections in opposite
+   orders by two requests, is repaired (fix F18: each owned IRI once, in lexical order). *)
 Definition f2b_activity : json :=
   JObj [("@context", JStr "https://www.w3.org/ns/activitystreams"); ("type", JStr "Note"); ("id", JStr "https://r.example/n");
-        ("to", JArr [JStr "https://l.example/c"; JStr "https://l.example/c"])].
+        ("to", JStr "https://l.example/c"); ("inReplyTo", JStr "https://l.example/c")].
 Definition f2b_col : json := JObj [("type", JStr "Collection"); ("id", JStr "https://l.example/c")].
 Definition f2b_trace : list (ev * ans) :=
   [(ELock "https://r.example/n", AOk); (EDb "Exists" [JStr "https://r.example/n"], ABool false);
    (EDb "Create" [canon f2b_activity], AOk); (EUnlock "https://r.example/n", AOk);
    (ELock "https://l.example/c", AOk); (EDb "Owns" [JStr "https://l.example/c"], ABool true); (EUnlock "https://l.example/c", AOk);
-   (ELock "https://l.example/c", AOk); (EDb "Owns" [JStr "https://l.example/c"], ABool true); (EUnlock "https://l.example/c", AOk);
    (ELock "https://l.example/c", AOk); (EDb "Get" [JStr "https://l.example/c"], AJson f2b_col);
+   (EApp "MaxInboxForwardingRecursionDepth" [], ANat 1);
    (ELock "https://l.example/c", AErr);
    (EUnlock "https://l.example/c", AOk)].
 
